@@ -155,6 +155,7 @@ static void run_case(int ntok, char **tok)
 	int kind;
 	if (ntok < 3) return;
 	if (!strcmp(tok[2], "pm")) { h_run_pm(ntok, tok); return; }
+	if (!strcmp(tok[2], "lat")) { h_run_lat(ntok, tok); return; }
 	if (!strcmp(tok[2], "col")) { run_col(ntok, tok); return; }
 	if ((kind = h_kind(tok[2])) < 0) { vh_tok("?kind"); return; }
 	{
